@@ -30,7 +30,7 @@ ASSUMPTIONS = [
 
 def _flood_scenario(rng, kind):
     short = rc.pick_rate(rng, rng.choice(["hyp", "sub"]), period=rng.choice([S, S, 10 ** 8, 2 * S]))
-    short = (short[0], short[1], rng.choice([1, 1, 2, short[2]]))
+    short = (short[0], short[1], rng.choice([1, 1, 2, min(short[2], 20)]))
     long_p = rng.choice([60 * S, 3600 * S, 10 * S])
     la = rng.choice([5, 10, 30, 100])
     long_ = (long_p, la, rng.choice([la, la // 2 + 1, 3]))
